@@ -532,7 +532,7 @@ RunResult run_plan(const Plan &p, Stats *st, std::vector<uint64_t> *nt_pairs) {
     size_t live = simrt::heap_end_run();
     char d[200];
     simrt::HeapViolation hv = simrt::heap_take_violation(d, sizeof d);
-    if (!V.set && hv != simrt::HV_NONE) set_viol(V, hv == simrt::HV_DOUBLE_FREE ? "double_free" : hv == simrt::HV_INVALID_FREE ? "invalid_free" : "form_mismatch", "heap", d);
+    if (!V.set && hv != simrt::HV_NONE) set_viol(V, hv == simrt::HV_DOUBLE_FREE ? "double_free" : hv == simrt::HV_INVALID_FREE ? "invalid_free" : hv == simrt::HV_OVERRUN ? "out_of_bounds_write" : "form_mismatch", "heap", d);
     (void)live;
     return rr;
 }
